@@ -1174,6 +1174,20 @@ func (in *Interp) valEq(a, b Value) *Term {
 		if x.Bytes != nil || y.Bytes != nil {
 			return in.bytesEq(x, y)
 		}
+		if x.Fmt != nil && y.Fmt != nil && x.Fmt.Format == y.Fmt.Format && len(x.Fmt.Args) == len(y.Fmt.Args) && strings.HasPrefix(x.Fmt.Format, "enc:") {
+			// vEncInt strings: injective in their integer argument
+			r := True
+			for i := range x.Fmt.Args {
+				r = And(r, Eq(x.Fmt.Args[i].(*Term), y.Fmt.Args[i].(*Term)))
+			}
+			return r
+		}
+		if x.Fmt != nil && strings.HasPrefix(x.Fmt.Format, "enc:") && y.Fmt == nil && y.Atom == nil {
+			return False // an encoded value never equals a plain literal
+		}
+		if y.Fmt != nil && strings.HasPrefix(y.Fmt.Format, "enc:") && x.Fmt == nil && x.Atom == nil {
+			return False
+		}
 		return Eq(in.strTerm(x), in.strTerm(y))
 	case IfaceV:
 		y, ok := b.(IfaceV)
